@@ -545,6 +545,18 @@ def _shape_place(fn, pl, depth, seen):
         sel = _select_aggregate_operand(fn, pl)
         if sel is not None:
             return shape(fn, sel, depth, seen)
+        # `(a, b).0@Some.0`: select the tuple component, keep the remaining projections
+        if len(pl["p"]) > 1 and isinstance(pl["p"][0], dict) and "f" in pl["p"][0]:
+            defs = fn.defs_of(pl["l"])
+            if _RESTRICT[0] is not None:
+                defs = [(bb, n) for bb, n in defs if bb in _RESTRICT[0]]
+            if len(defs) == 1 and defs[0][1]["k"] == "assign" and defs[0][1]["rv"]["k"] == "agg" and defs[0][1]["rv"].get("ak") == "tuple":
+                ops = defs[0][1]["rv"]["ops"]
+                if pl["p"][0]["f"] < len(ops):
+                    rest = ""
+                    for p in fields[1:]:
+                        rest += ("." + p["n"]) if "f" in p else ("@" + p["dc"]) if "dc" in p else ("[%s%d]" % ("-" if p["from_end"] else "", p["ci"])) if "ci" in p else "[i]"
+                    return shape(fn, ops[pl["p"][0]["f"]], depth, seen) + rest
     base = _shape_local(fn, pl["l"], depth, seen)
     return base + suffix
 
